@@ -95,6 +95,13 @@ def cases(tier, seed):
         sfx = suffixes if (tier == "thorough" or len(case["tags"]) <= 2) else ["inh1", "ext.lbl", "pcr.lbl", "bra", "rmb300", "equ16", "fcc11", "end"]
         for s in sfx:
             yield dict(base, tr="suffix", arg=s)
+        if len(case["tags"]) == 1:
+            # the same with a label on the ORG line (the label of the first statement of a program)
+            for d in SHIFTS:
+                yield dict(base, tr="shift", arg=d, olab=True)
+            yield dict(base, tr="rename", arg=0, olab=True)
+            yield dict(base, tr="format", arg=FORMATS[0], olab=True)
+            yield dict(base, tr="suffix", arg="ext.lbl", olab=True)
     # interacting PC-relative statements (sizes that depend on each other) with a PC-relative or branch statement appended
     for ra, rb in itertools.product(["S0", "LA", "M", "LB", "S3"], repeat=2):
         for g1 in (112, 118, 121, 122, 123, 126, 131):
@@ -113,6 +120,7 @@ def cases(tier, seed):
     for name in ("readme", "xref", "pcr", "strings", "exprs"):
         for d in SHIFTS:
             yield {"big": name, "tr": "shift", "arg": d}
+            yield {"big": name, "tr": "shift", "arg": d, "olab": True}
         for f in FORMATS:
             yield {"big": name, "tr": "format", "arg": f}
         for s in suffixes:
@@ -256,7 +264,8 @@ def check_case(case):
         return check_tworeg(case)
     lines0, labels = base_lines(case)
     tr, arg = case["tr"], case["arg"]
-    cell = "{}|{}|{}".format(tr + ("@{}".format(case["org"]) if "org" in case else ""), arg if tr != "rename" else "map{}".format(arg),
+    olab = "OLAB9" if case.get("olab") else ""       # a label on the ORG line itself: the first statement of the program carries a label
+    cell = "{}|{}|{}".format(tr + ("@{}".format(case["org"]) if "org" in case else "") + (".olab" if olab else ""), arg if tr != "rename" else "map{}".format(arg),
                              case.get("big") or ("two:{}>{}".format(case["two"][0], case["two"][1]) if "two" in case else
                                                   "three:{}".format(">".join(case["three"][0])) if "three" in case else ",".join(case["tags"])))
     res = {"nontrivial": False, "outcome": "skip", "state": "skip"}
@@ -270,7 +279,7 @@ def check_case(case):
     if org == LOW_ORG and any(abs_statement(case, i, lines0) for i in range(len(lines0))):
         # below $100 the width of an absolute reference (direct / 5-bit / 8-bit offset) legitimately depends on the label's value
         return res
-    base = [" ORG ${:04X}".format(org)] + lines0
+    base = [olab + " ORG ${:04X}".format(org)] + lines0
     ref = common.assemble_confirm(base)
     if ref["kind"] != "OK":
         res["state"] = "base-" + ref["kind"]
@@ -282,7 +291,7 @@ def check_case(case):
             return res
         if org < 0x100 and max(org, new_org) + len(ref["image"]) > 0x100:
             return res
-        out = common.assemble_confirm([" ORG ${:04X}".format(new_org)] + lines0)
+        out = common.assemble_confirm([olab + " ORG ${:04X}".format(new_org)] + lines0)
         if out["kind"] != "OK":
             bad("relocated program rejected", "accepted", common.outcome_brief(out))
         else:
